@@ -62,6 +62,10 @@ pub enum Judge {
 
 type Cost = (usize, usize, usize);
 
+/// One isqrt hint site as it happened: (den, flag used, y used, was it substituted, index of the
+/// `was_square` witness that is allocated right after the hint is taken).
+type Site = (Fq, bool, Fq, bool, usize);
+
 #[derive(Clone, Copy, Debug)]
 pub struct Calib {
     pub decode: Cost,
@@ -448,9 +452,10 @@ pub fn run(
     };
     // install the prover
     let hints = c.hints.clone();
-    let site_log: std::rc::Rc<std::cell::RefCell<Vec<(Fq, bool, Fq, bool)>>> = Default::default();
+    let site_log: std::rc::Rc<std::cell::RefCell<Vec<Site>>> = Default::default();
     {
         let sl = site_log.clone();
+        let cs_for_hook = cs.clone();
         decaf377::verif::reset_sites();
         decaf377::verif::set_isqrt_hook(Some(Box::new(move |site, den, honest| {
             let sub = hints.get(site).cloned().unwrap_or_else(HintSub::honest);
@@ -459,7 +464,7 @@ pub fn run(
             } else {
                 hint_value(&sub, den, honest)
             };
-            sl.borrow_mut().push((*den, f, y, (f, y) != honest));
+            sl.borrow_mut().push((*den, f, y, (f, y) != honest, cs_for_hook.num_witness_variables()));
             (f, y)
         })));
         let enc_hints = c.enc_hints.clone();
@@ -534,7 +539,7 @@ pub fn run(
     let sat = cs.is_satisfied().ok();
     w.out.satisfied = sat;
     // hint statistics
-    for (den, f, y, changed) in site_log.borrow().iter() {
+    for (den, f, y, changed, _) in site_log.borrow().iter() {
         w.out.steps += 1;
         if den.is_zero() {
             w.probe("hint_site_den_zero");
@@ -558,8 +563,8 @@ pub fn run(
         }
         Judge::C14 => {
             judge_c14(&mut w, c, sat, &site_log.borrow());
-            if c.tamper_bits && w.out.viols.is_empty() {
-                tamper_bits_phase(&mut w, c, &site_log.borrow());
+            if (c.tamper_bits || c.tamper_free) && w.out.viols.is_empty() && !w.wrecked {
+                tamper_phase(&mut w, c, &site_log.borrow());
             }
         }
     }
@@ -604,100 +609,6 @@ pub fn run(
         finals,
         sat,
     }
-}
-
-/// The prover owns the whole witness, not only the values the gadgets ask
-/// for through hints. This phase plays a prover who rewrites witnessed bit
-/// decompositions: every window of 253 consecutive boolean witnesses whose
-/// little-endian value v satisfies v + q < 2^253 is replaced by the bits of
-/// v + q (the same field element, opposite parity). A gadget that takes its
-/// sign from a *unique* decomposition makes every such system unsatisfied; if
-/// one stays satisfied, the recorded relations are judged on it.
-fn tamper_bits_phase(w: &mut World, c: &Circuit, sites: &[(Fq, bool, Fq, bool)]) {
-    const NBITS: usize = 253;
-    let q = &simcore::field::fq().p;
-    let limit = BigUint::from(1u32) << NBITS;
-    let original: Vec<Fq> = match w.cs.borrow() {
-        Some(cs) => cs.witness_assignment.clone(),
-        None => return,
-    };
-    let zero = Fq::from(0u64);
-    let one = Fq::from(1u64);
-    // locate the real decompositions: packing constraints 0 * 0 = sum 2^i b_(k+i) - x, i.e. rows of C that
-    // carry the coefficients 1, 2, 4, ..., 2^252 on 253 consecutive witness columns
-    let starts: Vec<usize> = {
-        let inner = match w.cs.borrow() {
-            Some(cs) => cs.clone(),
-            None => return,
-        };
-        let copy = ConstraintSystemRef::new(inner);
-        copy.finalize();
-        let m = match copy.to_matrices() {
-            Some(m) => m,
-            None => return,
-        };
-        let ni = m.num_instance_variables;
-        let mut pow2 = Vec::with_capacity(NBITS);
-        let mut p = one;
-        for _ in 0..NBITS {
-            pow2.push(p);
-            p = p + p;
-        }
-        let mut v = Vec::new();
-        for row in m.c.iter().filter(|r| r.len() >= NBITS) {
-            let map: BTreeMap<usize, Fq> = row.iter().filter(|(_, c)| *c >= ni).map(|(f, c)| (*c - ni, *f)).collect();
-            for (col, coeff) in map.iter() {
-                if *coeff == one && (1..NBITS).all(|i| map.get(&(col + i)) == Some(&pow2[i])) {
-                    v.push(*col);
-                }
-            }
-        }
-        v.sort();
-        v.dedup();
-        v
-    };
-    let isbit: Vec<bool> = original.iter().map(|x| *x == zero || *x == one).collect();
-    let mut tried = 0u64;
-    for k in starts {
-        if k + NBITS > original.len() || !isbit[k..k + NBITS].iter().all(|b| *b) {
-            continue;
-        }
-        let mut v = BigUint::from(0u32);
-        for i in (0..NBITS).rev() {
-            v = (v << 1) + BigUint::from((original[k + i] == one) as u32);
-        }
-        let alt = &v + q;
-        if v < *q && alt < limit {
-            tried += 1;
-            {
-                let mut cs = w.cs.borrow_mut().unwrap();
-                for i in 0..NBITS {
-                    cs.witness_assignment[k + i] = if alt.bit(i as u64) { one } else { zero };
-                }
-            }
-            let sat = w.cs.is_satisfied().ok();
-            if sat == Some(true) {
-                w.fault("bit_decomposition_rewritten_system_still_satisfied");
-                w.tamper_tag = Some("noncanonical_bits");
-                judge_c14(w, c, sat, sites);
-                w.tamper_tag = None;
-            }
-            {
-                let mut cs = w.cs.borrow_mut().unwrap();
-                for i in 0..NBITS {
-                    cs.witness_assignment[k + i] = original[k + i];
-                }
-            }
-            if !w.out.viols.is_empty() {
-                break;
-            }
-        }
-    }
-    if tried > 0 {
-        *w.out.probes.entry("bit_decomposition_windows_rewritten").or_insert(0) += tried;
-        w.out.nontrivial = true;
-    }
-    w.out.steps += tried;
 }
 
 fn bridge_is_square_inv(den: &Fq) -> bool {
@@ -754,3 +665,4 @@ pub fn op_name(op: &R1Op) -> &'static str {
 
 include!("step.rs");
 include!("judge.rs");
+include!("tamper.rs");
